@@ -243,10 +243,16 @@ def value_setter_model(ctx, rule):
     if f is None:
         raise AnalysisError("rx value-setter model: the setter of reactive_ops.value was not found")
     problems, n = [], 0
-    for has_refs in (False, True):
+    from checks.setter_model import RecDict
+    for has_refs in (False, True, "same-object"):
         given = Obj("callers_container")
         rebuilt = Obj("rebuilt_private_container")
         wrapper = Obj("wrapper", object=Obj("previous_object"))
+        if has_refs == "same-object":
+            # the value assigned resolves to the very object the root holds (pinning the current value of an asynchronous root):
+            # the assignment is still what ends the reference and cancels the pending evaluation
+            wrapper.attrs["object"] = rebuilt
+        wrapper.attrs = RecDict(wrapper.attrs)
         root = Obj("root_rx", _wrapper=wrapper)
         root.attrs["_root"] = root
         me = Obj("ops", _reactive=root)
@@ -257,7 +263,7 @@ def value_setter_model(ctx, rule):
             if fn == "resolve_value":
                 return rebuilt if args and args[0] is given else Obj("resolved_something_else")
             if fn == "resolve_ref":
-                return [Obj("dependency")] if has_refs else []
+                return [Obj("dependency")] if has_refs is True else []
             return NotImplemented
         it = Interp(ctx.hier, call_hook=hook, globals={"Parameter": "Parameter", "rx": "rx"})
         try:
@@ -267,7 +273,11 @@ def value_setter_model(ctx, rule):
         if len(outs) != 1 or outs[0].imprecise:
             raise AnalysisError("rx value-setter model: the setter is not interpretable precisely (%s)" % (outs[0].notes[:2] if outs else "no outcome"))
         n += 1
-        desc = "x.rx.value = <a container %s>" % ("holding a reference" if has_refs else "of plain values")
+        desc = "x.rx.value = <a container %s>" % ("holding a reference" if has_refs is True else "of plain values" if not has_refs else "that resolves to the object the root already holds")
+        if outs[0].kind == "return" and "object" not in wrapper.attrs.written:
+            problems.append("%s assigns nothing to the root: for a root driven by a coroutine / async generator the assignment is what ends the reference and cancels the pending "
+                            "evaluation, whose later results then overwrite the value that was just set" % desc)
+            continue
         if outs[0].kind != "return":
             problems.append("%s raises %s" % (desc, outs[0].value))
         elif wrapper.attrs["object"] is given:
